@@ -990,6 +990,27 @@ pub fn generate(ctx: &Ctx, prop: &str, rng: &mut Rng64, thorough: bool, index: u
         repeat: 0,
     };
     match prop {
+        "C03" | "C04" if rng.chance(if prop == "C04" { 70 } else { 40 }) => {
+            // stepping back: every successor of a position with one or two legal moves has been
+            // a search root on this memory (terminal successors included), then the position
+            // itself is searched - all its root moves lead into recorded positions
+            case.dims = *rng.pick(&[(8usize, 64usize), (8, 1024), (2, 8)]);
+            let max_moves = if rng.chance(700) { 1 } else { 2 };
+            let a = corpus::random_forced(rng, max_moves);
+            for m in a.legal_moves() {
+                let b = a.make(m);
+                let d = 1 + rng.below(2) as u32;
+                case.searches.push(SearchSpec { fen: b.fen(), depth: Some(d), seed: pick_seed(rng), entry: Entry::Sync { workers: Some(1) }, rayon_threads: 1, fresh: false, history: vec![], faults: vec![] });
+            }
+            let d = 1 + rng.below(3) as u32;
+            let (entry, rt, _) = entry_for(rng, Some(d));
+            let mut faults = Vec::new();
+            if rng.chance(250) {
+                faults.push(Fault { kind: FaultKind::StopAtStep, at: rng.below(30), times: 1 });
+            }
+            case.searches.push(SearchSpec { fen: a.fen(), depth: Some(d), seed: pick_seed(rng), entry, rayon_threads: rt, fresh: false, history: vec![], faults });
+            case.searches.push(SearchSpec { fen: a.fen(), depth: Some(2), seed: pick_seed(rng), entry: Entry::Sync { workers: Some(1) }, rayon_threads: 1, fresh: false, history: vec![], faults: vec![] });
+        }
         "C03" if rng.chance(60) => {
             // the same position again on the same memory, with a Stop that is already waiting
             // when the search comes to life: whatever the table says about the root (a mate
